@@ -324,7 +324,7 @@ def unflat(seq):
     return go()
 
 
-def eval_terms(name, imports, terms, shard=200, timeout=600):
+def eval_terms(name, imports, terms, shard=200, timeout=600, preamble=""):
     """evaluate Coq terms of type V with vm_compute and return them as Python values
     (ints / nested lists); None for a shard that failed"""
     os.makedirs(GEN, exist_ok=True)
@@ -337,6 +337,7 @@ def eval_terms(name, imports, terms, shard=200, timeout=600):
             for imp in imports:
                 f.write(f"From Verif Require Import {imp}.\n")
             f.write("Set Printing Width 100000000.\nSet Printing Depth 100000000.\n")
+            f.write(preamble + "\n")
             f.write("Definition terms : list V := [\n" + ";\n".join(" " + t for t in ts) + "].\n")
             f.write("Eval vm_compute in (map flat terms).\n")
         # the output can exceed a pipe buffer: write it to a file
